@@ -102,7 +102,7 @@ def prepare_crate(crate):
         return _built[crate]
 
 
-CHECK_RE = re.compile(r"^Check (\d+): (\S+)\n\t - Status: (\w+)\n\t - Description: \"(.*)\"\n\t - Location: (.*)$", re.M)
+CHECK_RE = re.compile(r"^Check (\d+): (.+)\n\t - Status: (\w+)\n\t - Description: \"(.*)\"\n\t - Location: (.*)$", re.M)
 
 
 def parse_kani_log(txt):
@@ -131,8 +131,9 @@ def parse_kani_log(txt):
         fm = re.search(r"in function (\S+)", loc)
         if fm and status != "UNREACHABLE":
             fn = fm.group(1)
-            if fn.startswith(("rln::", "zerokit_utils::", "pmtree::", "h_", "utils::")) or "/repo/" in loc:
-                r["functions"].add(fn)
+            fn_full = loc.split(" in function ", 1)[1] if " in function " in loc else fn
+            if any(t in fn_full for t in ("rln::", "zerokit_utils::", "pmtree::", "gen::", "utils::")) or "/repo/" in loc or loc.startswith("src/gen/"):
+                r["functions"].add(fn_full[:200])
     for m in re.finditer(r"^\s*- Stub: (.*)$", txt, re.M):
         r["stubs"].append(m.group(1).strip())
     m = re.search(r"VERIFICATION:- (\w+)", txt)
@@ -188,7 +189,7 @@ def run_kani_harness(h, tier, seed):
         r["error"] = "no verdict (rc=%d): %s" % (rc, out[-800:])
     # on failure fetch concrete values
     r["playback"] = []
-    if r["verdict"] == "FAILED" and r["failed"] and not r["unwind_fail"]:
+    if r["verdict"] == "FAILED" and r["failed"] and not r["unwind_fail"] and not (h.get("expect") == "known" and tier == "quick"):
         # kani-driver itself needs memory to parse the trace: looser cap for the playback re-run
         cmd2 = "ulimit -v %d; exec timeout -k 5 %d %s -Z concrete-playback --concrete-playback=print" % (max(2 * mem_kb, 24 * 1024 * 1024), tmo, base)
         rc2, out2 = sh(cmd2, cwd=cdir)
